@@ -72,6 +72,7 @@ type revHistory struct {
 	accs    []*revocation.Accumulator // accs[i] has Index i
 	events  []*revocation.Event       // events[i] has Index i (events[0] is the initial event)
 	revoked map[string]int            // e -> index at which it was removed
+	eStr    []string                  // decimal text of events[i].E as created
 }
 
 func newRevHistory(kp *KeyPair) *revHistory {
@@ -83,7 +84,11 @@ func newRevHistory(kp *KeyPair) *revHistory {
 	if err != nil {
 		panic(err)
 	}
-	return &revHistory{kp: kp, accs: []*revocation.Accumulator{acc}, events: []*revocation.Event{upd.Events[0]}, revoked: map[string]int{}}
+	e0 := ""
+	if upd.Events[0].E != nil {
+		e0 = upd.Events[0].E.String()
+	}
+	return &revHistory{kp: kp, accs: []*revocation.Accumulator{acc}, events: []*revocation.Event{upd.Events[0]}, revoked: map[string]int{}, eStr: []string{e0}}
 }
 
 func (h *revHistory) revoke(e *gbig.Int) {
@@ -95,6 +100,7 @@ func (h *revHistory) revoke(e *gbig.Int) {
 	na.Time = cur.Time + 10 // deterministic, strictly increasing
 	h.accs = append(h.accs, na)
 	h.events = append(h.events, ev)
+	h.eStr = append(h.eStr, ev.E.String())
 	h.revoked[e.String()] = int(na.Index)
 }
 
@@ -231,6 +237,13 @@ func suiteC09(s *Suite, rng *Rng, tier string) {
 				valid := new(gbig.Int).Exp(w.U, w.E, n).Cmp(w.SignedAccumulator.Accumulator.Nu) == 0
 				if newIdx < ourIdx {
 					s.Violate("C09:witness-moved-backwards", "index decreased", desc)
+				}
+				// an update message is shared between witnesses: applying it must leave its events as they were
+				for i, ev := range h.events {
+					if ev.E != nil && ev.E.String() != h.eStr[i] {
+						s.Violate("C09:update-argument-mutated", fmt.Sprintf("Witness.Update changed event %d of the update message it was given", i), desc)
+						ev.E, _ = new(gbig.Int).SetString(h.eStr[i], 10) // repair so that the run can go on
+					}
 				}
 				if res == 5 {
 					s.Violate("C09:update-panicked", "Witness.Update panicked", desc)
